@@ -119,24 +119,6 @@ def check(ctx: Ctx, ev: Evidence) -> list[Finding]:
                         out.append(Finding("C05-R2", f"dest handler | file_name := {rep[:80]} in {fn}", "the destination name is not built from the Metadata PDU's names with pure path operators behind the directory test", x.site, witness_of(a, e)))
         # R5
         r5_edge(a, e, evs, vfs, ev, out, once, "C05-R5")
-        md_file = []
-        if False:
-          md_file = [x for x in evs if x.kind == "store" and x.name == "DestStateWrapper.step" and ename(x.args[0]) == "RECEIVING_FILE_DATA" and e.label == ("state_machine", "METADATA")]
-        if md_file:
-            cr = [x for _, x in vfs if x.name == "vfs.create_file" and x.args[-1][0] == "ret"]
-            tr = [x for _, x in vfs if x.name == "vfs.truncate_file" and x.args[-1][0] == "ret"]
-            fe = [x for _, x in vfs if x.name == "vfs.file_exists"]
-            rejected = any(x.kind == "caught" and x.name == "PermissionError" for x in evs) or any(x.kind == "env" and x.name.startswith("vfs.") and x.args[-1][0] == "raises" for x in evs)
-            exists = fe[-1].args[-1] if fe else None
-            ok = rejected or (len(cr) + len(tr) == 1 and ((exists == ("ret", True) and len(tr) == 1) or (exists == ("ret", False) and len(cr) == 1)))
-            if e.exc is not None and e.exc.origin == "env":
-                ok = True
-            k = f"Metadata for a file: file_exists={exists}, create x{len(cr)}, truncate x{len(tr)}" + (" (filestore rejection path)" if rejected else "")
-            if once(k):
-                ev.inst("C05-R5", k, "ok" if ok else "violation")
-                if not ok:
-                    out.append(Finding("C05-R5", f"dest handler | Metadata acceptance | {k}", "the destination file is not created or truncated exactly once when the Metadata arrives (truncate iff it exists)",
-                                       md_file[0].site, witness_of(a, e)))
     ev.extra["explanation"] = "every filestore event and every store to the destination name on every edge of the destination handler's abstract transition system"
     ev.assume("byte content after overlapping/duplicate writes and zero-filled gaps is write_data's semantics (C17), not decided here")
     return out
